@@ -140,7 +140,7 @@ def _work(ctx: Ctx, item):
 
 
 def run(ctx: Ctx):
-    n = 150 if ctx.quick else 2500
+    n = 150 if ctx.quick else 6000
     pmap(ctx, _work, [(n,)] * 16)
 
 
